@@ -66,7 +66,7 @@ def _parse(o):
     if not m:
         return False, []
     body = m.group(1).strip()
-    pairs = [(int(a), int(c)) for a, c in re.findall(r"\((\d+)(?:%nat)?,\s*(\d+)(?:%nat)?\)", body)]
+    pairs = [(int(a), int(c)) for a, c in re.findall(r"\(\s*(\d+)(?:%nat)?\s*,\s*(\d+)(?:%nat)?\s*\)", body)]
     if body != "[]" and not pairs:
         return False, []
     return True, pairs
